@@ -343,7 +343,8 @@ KNOWN_STRING_KEY = "string-initialiser-python-unicode-escape"
 def judge_string(text, want):
     """None: the printed String initialiser is a Java literal of `want`;
     KNOWN_STRING_KEY: it is `want` under Python's unicode-escape reading but not valid Java because of an
-    unescaped double quote, a \\xNN or a \\UNNNNNNNN escape (the listed known finding, nothing else);
+    unescaped double quote, a \\xNN or a \\UNNNNNNNN escape (the shape of the defect repaired by
+    fixes/C04-string-initialiser-literal.diff; the key is no longer listed, so it is a violation again);
     'other': anything else (a violation)"""
     if java_string_strict(text) == utf16_units(want):
         return None
@@ -943,6 +944,9 @@ def run_case(ck, dex, cm, dexasm, case, report=True):
     if op == "prints":
         st = "".join(chr(c) for c in case["codepoints"])
         r = real_print("Ljava/lang/String;", st)
+        j = judge_string(r[3:], st) if r.startswith("ok ") else "other"
+        if j is not None and report:
+            ck.fail(case, "printed String initialiser is not a Java literal of the string", j if j != "other" else None, st, r)
         return st, r
     if op == "print":
         exp = case.get("expected")
@@ -988,6 +992,7 @@ def run(ck: Check):
     ck.big = (not ck.quick) or getattr(ck, "escalated", False)
     dex, cm = _real()
     ck.run_gen("valuetypes")
+    ck.run_gen("jstring")          # writer.string(): the String initialiser is printed through it
     ck.prove(exes=["drv_C04"])
     drv = Driver("drv_C04")
     ck.rule = ("[statics: classes with same-named fields of different types included, printed initialisers matched to fields by position (name, type) for get_source and get_source_ext] evalue: all 32 types x 8 value_args x 11+3 boundary/random payloads (exact, with tail, truncated), values "
@@ -1071,7 +1076,7 @@ def run(ck: Check):
         if not ok:
             ck.fail({"op": "print", "proto": proto, "value": v, "expected": exp},
                     "printed initialiser does not denote the value", None, exp, real[-1])
-    # String initialisers: model = CPython's unicode-escape codec between quotes
+    # String initialisers: model = writer.string() (AgVerif.JavaString.escape)
     sreqs, sreal = [], []
     strs = ["", "a", "hello world", 'say "hi"', "it's", "back\\slash", "\\u0041", "tab\t nl\n cr\r", "\x00\x01\x1f\x7f\x80\xe9\xff",
             "\u0100\u4e2d\uffff", "\ud800", "\udfff\ud800", "\U00010000\U0001f600\U0010ffff", "\\", '"', "\\\\u"]
@@ -1144,12 +1149,11 @@ def run(ck: Check):
     ck.assumptions.append("Python recursion limit is not modelled (nesting depth of generated values <= 40)")
     ck.assumptions.append("struct.unpack('<f'/'<d') is modelled as the identity on bit patterns; NaNs are compared as 'nan'")
     ck.partial.append("'the decompiler prints the same value' is PROVED for byte, short, char, int, long, boolean, null, "
-                      "non-finite float/double (print_denotes_*, static_init_print) and for String values made of JavaSafe "
-                      "code points (print_denotes_string_safe). For other strings it is FALSE of the code (known finding "
-                      "string-initialiser-python-unicode-escape, string_initialiser_refuted). NOT proved: FINITE float/double "
-                      "initialisers (text comes from Python repr, not modelled in Lean; read back by the Java-literal oracle on "
-                      "the real code only). type/field/method/enum/array/annotation-valued initialisers are printed with Python "
-                      "str() (a descriptor, a list repr, an object repr): they denote no Java value, nothing is claimed.")
+                      "non-finite float/double (print_denotes_*, static_init_print) and for EVERY String value "
+                      "(print_denotes_string, through writer.string()). NOT proved: FINITE float/double initialisers (text "
+                      "comes from Python repr, not modelled in Lean; read back by the Java-literal oracle on the real code "
+                      "only). type/field/method/enum/array/annotation-valued initialisers are printed with Python str() "
+                      "(a descriptor, a list repr, an object repr): they denote no Java value, nothing is claimed.")
 
 
 def replay(ck: Check, rp):
